@@ -352,7 +352,9 @@ func main() {
 	dumpGap := flag.Int("dumpgap", 20, "compare complete state every N steps")
 	malformed := flag.Int("malformed", 8, "percent of malformed commands")
 	conns := flag.Int("conns", 0, "connections (0: family default)")
+	nkeys := flag.Int("keys", 0, "number of key names the generator uses (0: all six)")
 	flag.Parse()
+	gen.Hash = redisemu.VerifSipHash
 
 	if *replay != "" {
 		data, err := os.ReadFile(*replay)
@@ -415,6 +417,9 @@ func main() {
 				}
 				g := gen.New(*seed*1000003+int64(seq), *fam)
 				g.Malformed = *malformed
+				if *nkeys > 0 && *nkeys < len(g.Keys) {
+					g.Keys = g.Keys[:*nkeys] // fewer keys: each one gets a longer history
+				}
 				if *conns > 0 {
 					g.Conns = *conns
 				}
